@@ -76,6 +76,19 @@ def ops(a):
                 for n in (0, 2, 5):
                     r = round(p, n)
                     fld = {'DECAngle': lambda o: o.dec(), 'GONAngle': lambda o: o.gon(), 'DMSAngle': lambda o: o.second, 'DDMAngle': lambda o: o.minute}[lc]
-                    if type(r).__name__ != lc or abs(F(fld(r)) - F(fld(p))) > F(1, 2 * 10 ** n) + F(1, 10 ** 12) or (r.dec() < 0) != (p.dec() < 0) and r.dec() != 0:
+                    unit = {'DECAngle': 1, 'GONAngle': F(9, 10), 'DMSAngle': F(1, 3600), 'DDMAngle': F(1, 60)}[lc]      # degrees per unit of the rounded field
+                    if type(r).__name__ != lc or abs(F(r.dec()) - F(p.dec())) > unit * F(1, 2 * 10 ** n) + F(1, 10 ** 12) or (r.dec() < 0) != (p.dec() < 0) and r.dec() != 0:
                         msgs.append('round(%s(%r), %d) = %r' % (lc, x, n, r))
+    # rounding at the carry boundaries of the sexagesimal classes (seconds / minutes that round up to 60 in minute 59)
+    for sign in (True, False):
+        for (d, m, sec) in ((12, 59, 59.7), (0, 59, 59.5), (12, 34, 59.96), (12, 59, 59.9999996), (359, 59, 59.999)):
+            for n in (0, 2, 5):
+                p = A.DMSAngle(d, m, sec, positive=sign)
+                r = round(p, n)
+                if type(r).__name__ != 'DMSAngle' or abs(F(r.dec()) - F(p.dec())) > F(1, 3600) * F(1, 2 * 10 ** n) + F(1, 10 ** 12) or ((r.dec() < 0) != (p.dec() < 0) and r.dec() != 0):
+                    msgs.append('round(%r, %d) = %r moves the angle by %.3g arc-seconds' % (p, n, r, abs(r.dec() - p.dec()) * 3600))
+                p = A.DDMAngle(d, m + sec / 60, positive=sign)
+                r = round(p, n)
+                if type(r).__name__ != 'DDMAngle' or abs(F(r.dec()) - F(p.dec())) > F(1, 60) * F(1, 2 * 10 ** n) + F(1, 10 ** 12) or ((r.dec() < 0) != (p.dec() < 0) and r.dec() != 0):
+                    msgs.append('round(%r, %d) = %r moves the angle by %.3g arc-minutes' % (p, n, r, abs(r.dec() - p.dec()) * 60))
     return bool(msgs), '; '.join(msgs[:4]) if msgs else 'operators agree with decimal-degree arithmetic'
